@@ -53,6 +53,10 @@ def eval_call(ex, node, st):
             return ex.reg.constructors[name](ex, node, st)
         if name in _BUILTINS:
             return _BUILTINS[name](ex, node, st)
+        if name in _EXC_NAMES and name not in st.env:
+            # an exception object built as a value (not raised here): opaque
+            for a in node.args: ex.ev(a, st)
+            return fresh(TAny, 'exc')
         cs = ex.reg.find_function(ex.fsrc.rel, name)
         if cs is not None:
             return call_contract(ex, st, cs, node)
@@ -794,6 +798,15 @@ def _b_dict(ex, node, st):
     raise OutsideSubset('dict(%s)' % v.ty)
 
 
+def _b_defaultdict(ex, node, st):
+    # collections.defaultdict(list): an empty literal; the declared local type
+    # (T.DefMap) gives it the default-on-missing behaviour
+    if len(node.args) != 1 or not isinstance(node.args[0], ast.Name) or \
+       node.args[0].id != 'list':
+        raise OutsideSubset('defaultdict with a factory other than list')
+    return PyDict({})
+
+
 def _b_set(ex, node, st):
     args = pos_args(ex, node, st)
     if not args:
@@ -916,6 +929,13 @@ def sorted_list(ex, v, st, kw):
                z3.Select(ty.arr(v.term), perm(i))))))
     ex.axioms.append(z3.ForAll([i], z3.Implies(z3.And(0 <= i, i < n),
         z3.And(0 <= inv(i), inv(i) < n, perm(inv(i)) == i))))
+    # the same bijection read from the input side (trigger: an element of the
+    # input list)
+    ex.axioms.append(z3.ForAll([i], z3.Implies(z3.And(0 <= i, i < n),
+        z3.And(0 <= inv(i), inv(i) < n,
+               z3.Select(ty.arr(v.term), i) ==
+               z3.Select(ty.arr(out.term), inv(i)))),
+        patterns=[z3.Select(ty.arr(v.term), i)]))
     rev = False
     if 'reverse' in kw:
         r = ex.ev(kw['reverse'], st)
@@ -1034,9 +1054,13 @@ def _b_sum(ex, node, st):
     raise OutsideSubset('sum over symbolic sequence')
 
 
+_EXC_NAMES = {'Exception', 'ValueError', 'RuntimeError', 'TypeError', 'KeyError', 'AssertionError',
+              'IndexError', 'AttributeError', 'OSError', 'IOError', 'NotImplementedError'}
+
 _BUILTINS = {'len': _b_len, 'int': _b_int, 'float': _b_float, 'bool': _b_bool,
              'str': _b_str, 'repr': _b_repr, 'min': _b_min, 'max': _b_max,
              'abs': _b_abs, 'list': _b_list, 'dict': _b_dict, 'set': _b_set,
+             'defaultdict': _b_defaultdict,
              'tuple': _b_tuple, 'isinstance': _b_isinstance,
              'range': _b_range, 'enumerate': _b_enumerate,
              'sorted': _b_sorted, 'any': _b_any_all(True),
@@ -1234,13 +1258,25 @@ def call_method(ex, node, st):
                                     % (rty, key.py))
             fty = rty.fields[key.py]
             v = Val(fty, rty.get(recv.term, key.py))
-            if isinstance(fty, TOpt) and dflt.ty != TNone:
-                # absent key (modelled as None) -> default
+            opt_keys = ex.reg.optional_keys.get(rty.name, ())
+            amb_keys = ex.reg.ambiguous_keys.get(rty.name, ())
+            if isinstance(fty, TOpt) and dflt.ty != TNone and \
+               (key.py in opt_keys or key.py in amb_keys):
+                # a key that may be absent is modelled as None when absent, and
+                # `.get(k, d)` yields d then.  A key that is always present keeps
+                # its None (`.get` ignores the default), and one that may be
+                # either (ambiguous_keys) yields d or None, undetermined.
                 d = dflt
                 if isinstance(d, (PyDict, PyTuple)):
                     d = coerce(d, fty.elem)
                 try:
                     ty = join_ty(fty.elem, d.ty)
+                    if key.py in amb_keys:
+                        oty = C.OptOf(ty)
+                        absent = z3.Bool(C.fresh_name('absent'))
+                        return Val(oty, z3.If(fty.is_none(v.term),
+                               z3.If(absent, oty.some(coerce(d, ty).term), oty.none()),
+                               oty.some(coerce(Val(fty.elem, fty.val(v.term)), ty).term)))
                     return Val(ty, z3.If(fty.is_none(v.term),
                                coerce(d, ty).term,
                                coerce(Val(fty.elem, fty.val(v.term)), ty).term))
